@@ -13,7 +13,10 @@ EXPLANATION = (
     "encodes but no view decodes: known finding F7); (R2) the evaluated attribute encode set contains the GFF3 reserved bytes "
     "and every delimiter constant the attribute readers split on, and the seqid set is exactly the complement of the "
     "spec's allowed class; (R3) GTF: the bytes the writer escapes with a backslash equal the bytes the reader accepts after "
-    "a backslash, and values are always quoted; (R4) the owned GFF record is built from the lazy accessors (one path)."
+    "a backslash, values are always quoted, and the reader's closing-quote scan compares against the escape character as well as the "
+    "quotation mark (a scan that only knows the quotation mark ends the value at an escaped one: defect F27); (R4) the owned GFF "
+    "record is built from the lazy accessors (one path), and an owned comment line is built from Line::as_comment, never from the "
+    "raw line (defect F28: the number sign doubled on every pass)."
     " (R5) append-buffer discipline of the GFF/GTF line readers incl. the blank-line skip loop."
     " (R6) copy before consume for the BED field scanner."
     " (R7) every BED read_record_N resets the line buffer and the extra-column bounds of the reused destination on all success paths (field-path reset rule, interprocedural through helpers that are handed a parent object).")
